@@ -210,9 +210,12 @@ func NewProvider(cfg ProviderConfig, keys *KeyStore) *Provider {
 	p.Chain.InitChain(GenesisTime, stateBytes, ConsensusParams())
 
 	sk := app.StakingKeeper
+	// Precondition of the real system: the unbonding period is far longer than two blocks, so a validator
+	// that signed the previous block is still known to x/staking and not yet unbonded when its vote is
+	// reported. The generators use short unbonding periods and long time steps, so the driver enforces it.
 	p.Chain.VoteFilter = func(addr []byte) bool {
-		_, err := sk.GetValidatorByConsAddr(p.Ctx(), sdk.ConsAddress(addr))
-		return err == nil
+		v, err := sk.GetValidatorByConsAddr(p.Ctx(), sdk.ConsAddress(addr))
+		return err == nil && !v.IsUnbonded()
 	}
 	return p
 }
